@@ -432,8 +432,10 @@ pub fn check(c: &VmCase) -> Result<Vec<&'static str>, (String, String)> {
                     labels.push("quantize NaN (not judged)");
                     continue;
                 }
-                let in_range = r >= -2_147_483_648.0 && r < 2_147_483_648.0;
-                let want = if in_range { ((r as i64) + zp).clamp(0, 255) } else if r > 0.0 { 255 } else { 0 } as u32;
+                // "in range" = neither the float -> i32 conversion nor the i32 addition of the zero
+                // point leaves the i32 range (same root cause: no saturation before/at the addition)
+                let in_range = r >= -2_147_483_648.0 && (r as f64) + 255.0 < 2_147_483_648.0;
+                let want = if r >= -2_147_483_648.0 && r < 2_147_483_648.0 { ((r as i64) + zp).clamp(0, 255) } else if r > 0.0 { 255 } else { 0 } as u32;
                 if got[i] != want {
                     let class = if in_range { "value" } else { "out-of-range" };
                     return Err((
